@@ -14,7 +14,7 @@ import rustlex as rl
 import vgen
 
 SCALARS = ["Int32", "Int64", "Float64", "String", "Bool", "Null", "Timestamp"]
-PAYLOAD = {"Int32Array": "i32", "Int64Array": "i64", "Float64Array": "f64", "StringArray": "String", "BooleanArray": "bool"}
+PAYLOAD = {"NullArray": "()", "Int32Array": "i32", "Int64Array": "i64", "Float64Array": "f64", "StringArray": "String", "BooleanArray": "bool"}
 
 
 def split_match_arms(body):
@@ -84,10 +84,11 @@ def generate(repo):
             continue
         dt = pm.group(1)
         am = re.search(r"Arc::new\(\s*(\w+Array)::from\(values\)\s*\)", arm)
-        if not am:
+        nm = re.search(r"Arc::new\(\s*(?:arrow::array::)?NullArray::new\(", arm)
+        if not am and not nm:
             raise vgen.GenError("build_column_array arm %s: array constructor not recognised" % dt)
-        arr = am.group(1)
-        if re.search(r"vec!\[\s*None\s*;", arm):
+        arr = am.group(1) if am else "NullArray"
+        if nm or re.search(r"vec!\[\s*None\s*;", arm):
             acc = None
         else:
             xm = re.search(r"and_then\(\s*(?:super::)?Value::(as_\w+)\s*\)", arm) or \
@@ -107,6 +108,11 @@ def generate(repo):
             load.append((arr, ctor, expr.strip()))
     if "is_null(row_idx)" not in extract or "Value::Null" not in extract:
         raise vgen.GenError("extract_value_from_array: null handling not recognised")
+    if "NullArray" in {a for _, a in store.values()}:
+        # an Arrow Null-typed array has no validity buffer: the read-back must test the data type
+        if not re.search(r"data_type\(\)\s*==\s*&ArrowDataType::Null", extract):
+            raise vgen.GenError("extract_value_from_array: a Null-typed array is not read back as Value::Null")
+        load.append(("NullArray", "Null", ""))
     used = {arr for _, arr in store.values()}
     for arr in used:
         if not any(a == arr for a, _, _ in load):
@@ -137,6 +143,9 @@ def generate(repo):
     out.append("    match s {")
     for arr, ctor, expr in load:
         if arr not in used:
+            continue
+        if arr == "NullArray":
+            out.append("        Stored::NullArray(_) => Value::Null,")
             continue
         if PAYLOAD[arr] == "String":
             out.append("        Stored::%s(Some(x)) => Value::%s(Arc::from(x.as_str()))," % (arr, ctor))
